@@ -407,7 +407,7 @@ fn edge_char(e: &Edge) -> char {
     }
 }
 
-fn fmt_edges<'a, I>(edges: I) -> String
+pub fn fmt_edges<'a, I>(edges: I) -> String
 where
     I: Iterator<Item = (usize, usize, &'a Edge)>,
 {
